@@ -7,7 +7,7 @@ from harness.common import run_check, expectation
 from harness.pgcat_state import *
 from mirsym.interp import Panic, Inconclusive
 from mirsym.values import *
-from mirsym.models.util import mkstr
+from mirsym.models.util import mkstr, deref
 from native import oracle
 
 IDS = ['0', '1', '2', '00', '01', '+1', 'x', '', '9223372036854775808', '18446744073709551616']
@@ -242,6 +242,78 @@ def o2_shard(chk, prog, nservers):
     chk.end(ob)
 
 
+@expectation('c15_fc')
+def c15_fc(ids, role):
+    """Native: Pool::validate then the real ConnectionPool::from_config: an accepted pool must be built without panicking and
+    every server's shard number must be the index of its shard."""
+    def f(res):
+        r = res[0]
+        if 'panic' in r:
+            return True, 'native panic while building the accepted pool: ' + r['panic']
+        if not r.get('validated'):
+            return False, 'native Pool::validate rejects it: %r' % (r,)
+        if 'error' in r:
+            return True, 'native from_config fails for an accepted pool: %r' % (r,)
+        want = [[k] for k in range(len(ids))]
+        okk = r['address_shards'] == want and r['settings_shards'] == len(ids) and r['databases'] == len(ids)
+        return (not okk, 'native pool: address shards %r, shards %r, databases %r for ids %r' % (r['address_shards'], r['settings_shards'], r['databases'], ids))
+    return f
+
+
+def o3_build(chk, prog, ids, role):
+    """accepted => servable, end to end: the real Pool::validate, then (if accepted) the real ConnectionPool::from_config."""
+    from checks import fromconfig as FC
+    name = 'O3-build-ids[%s]-role[%s]' % (','.join(ids), role)
+    ob = chk.begin(name, 'Pool::validate followed by ConnectionPool::from_config (real coroutine, nothing connected) for shard ids %r and default_role %r: '
+                   'if the pool is accepted it is built without panic, it has one database slot per shard and every server\'s shard number equals the '
+                   'position of its shard (so that client-selected shard k reaches shard k)' % (ids, role), {'shard_ids': list(ids), 'default_role': role})
+    fn_validate = [f for f in prog.lookup('Pool::validate') if f.params and 'config::Pool' in f.params[0][1]][0]
+    ip = chk.interp(prog, name)
+    from checks.serverfam import install_stats_noops
+    install_stats_noops(ip)
+
+    def harness(ip_):
+        cfg = FC.base_config(ip_, prog)
+        specs = [(sid, [mk_server(ip_, prog, rstring('h'), BV(16, 5432), BV(64, 1))], None) for sid in sorted(ids)]
+        pool = FC.mk_pool_cfg(ip_, prog, specs, default_role=rstring(role))
+        r = ip_.call_function(fn_validate, [Ptr(Cell(pool, 'pool'))])
+        ob.nontrivial += 1
+        if not result_is_ok(r):
+            return
+        pm = MapV('hashmap')
+        pm.entries.append([rstring('db'), Cell(pool, 'pool')])
+        setf(prog, cfg, 'Config', 'pools', pm)
+        FC.install(ip_, cfg)
+
+        def rep(what):
+            chk.report(ob, 'C15/O3/' + what.split(':')[0], 'accepted pool (shard ids %r, default_role %r) %s' % (ids, role, what),
+                       {'shard_ids': list(ids), 'default_role': role},
+                       {'commands': [{'op': 'from_config_probe', 'shard_ids': list(ids), 'servers': 1, 'default_role': role}], 'expect': ['c15_fc', list(ids), role]})
+        try:
+            FC.run_from_config(ip_, prog)
+        except Panic as p:
+            rep('panics: pool construction panics (%s)' % p.msg[:80])
+            return
+        ents = FC.pool_entries(ip_, prog)
+        if len(ents) != 1:
+            rep('missing: no pool is registered')
+            return
+        cp = ents[0][2]
+        addrs = FC.addresses_of(ip_, prog, cp)
+        shards_ok = len(addrs) == len(ids) and all(getf(prog, a, 'Address', 'shard').v == k for k, sh in enumerate(addrs) for a in sh)
+        ps = deref(ip_, getf(prog, cp, 'ConnectionPool', 'settings'))
+        nsh = getf(prog, ps, 'PoolSettings', 'shards').v
+        ndb = len(deref(ip_, getf(prog, cp, 'ConnectionPool', 'databases')).items)
+        if not shards_ok or nsh != len(ids) or ndb != len(ids):
+            rep('misindexed: server shard numbers %r, settings.shards %d, database slots %d'
+                % ([[getf(prog, a, 'Address', 'shard').v for a in sh] for sh in addrs], nsh, ndb))
+        if not ob.samples:
+            ob.samples.append({'accepted': True, 'shards': nsh})
+    ip.explore(harness)
+    chk.absorb(ob, ip)
+    chk.end(ob)
+
+
 def validate_translation(chk, prog):
     """Concrete pools through interpreter and native build."""
     cases = []
@@ -325,6 +397,10 @@ def main(chk):
         tasks.append((o1_pool, (prog, ['0'], 'replica', None, ra, rb)))
     for n in (0, 1, 2) + ((3,) if chk.thorough else ()):
         tasks.append((o2_shard, (prog, n)))
+    for ids in id_sets:
+        tasks.append((o3_build, (prog, list(ids), 'any')))
+    for role in ROLES[1:]:
+        tasks.append((o3_build, (prog, ['0'], role)))
     chk.parallel(_dispatch, tasks)
 
 
